@@ -74,6 +74,9 @@ pub struct Tracker {
     /// total frames in / out since construction (not reset by Z)
     pub tot_in: u64,
     pub tot_out: u64,
+    /// smallest input/output_frames_max seen so far (a buffer allocated then must still suffice)
+    pub min_in_max: usize,
+    pub min_out_max: usize,
 }
 
 impl Tracker {
@@ -101,6 +104,8 @@ impl Tracker {
             chunk: cfg.chunk,
             tot_in: 0,
             tot_out: 0,
+            min_in_max: usize::MAX,
+            min_out_max: usize::MAX,
         }
     }
 }
@@ -162,6 +167,13 @@ impl<T: Flt> Tracked<T> {
             }
             if self.props.c04 {
                 mon_c04(&cfg, &obs, &mut viols);
+                // buffers obtained from *_buffer_allocate at any earlier point must still suffice
+                if obs.after.in_next > self.trk.min_in_max.min(obs.before.in_max) {
+                    viols.push(Viol { prop: "C04", sig: "in_next>earlier-in_max".into(), detail: format!("after {}: input_frames_next {} exceeds input_frames_max reported earlier in this history ({})", op.text(), obs.after.in_next, self.trk.min_in_max.min(obs.before.in_max)) });
+                }
+                if obs.after.out_next > self.trk.min_out_max.min(obs.before.out_max) {
+                    viols.push(Viol { prop: "C04", sig: "out_next>earlier-out_max".into(), detail: format!("after {}: output_frames_next {} exceeds output_frames_max reported earlier in this history ({}): a buffer from output_buffer_allocate() obtained then is now too small", op.text(), obs.after.out_next, self.trk.min_out_max.min(obs.before.out_max)) });
+                }
             }
             if self.props.c09 {
                 mon_c09(&cfg, &obs, &mut viols);
@@ -188,6 +200,8 @@ impl<T: Flt> Tracked<T> {
         } else if check && self.props.c06 && op.is_processing() {
             stale_reads(&cfg, &obs, &mut viols);
         }
+        self.trk.min_in_max = self.trk.min_in_max.min(obs.before.in_max).min(obs.after.in_max);
+        self.trk.min_out_max = self.trk.min_out_max.min(obs.before.out_max).min(obs.after.out_max);
         // ---- tracker update (documented semantics)
         match (op, &obs.res) {
             (Op::R(x, ramp), Res::Unit) => {
